@@ -209,9 +209,10 @@ def run_case(case):
                               CYCLIC_OFFER_DELAY=t["cyc"], ANNOUNCE_TTL=t["ttl"], SEND_COLLECTION_TIMEOUT=0.033,
                               REQUEST_RESPONSE_DELAY_MIN=0.041, REQUEST_RESPONSE_DELAY_MAX=0.043)
         # timings given to the constructors or assigned to the objects' Timings afterwards (before anything is started)
-        tm_prot, apply_p = late(tm_prot, bool(case.get("late")))
-        tm_inst, apply_i = (tm_prot, apply_p) if tm_inst_same else late(tm_inst, bool(case.get("late")))
-        prot = make_sd(sim, tm_prot)
+        ctor_arg, apply_p = late(tm_prot, bool(case.get("late")))
+        prot = make_sd(sim, ctor_arg)
+        tm_prot = apply_p(prot)            # the protocol object's live Timings
+        tm_inst = tm_prot if tm_inst_same else late(tm_inst, bool(case.get("late")))[1]()
         ann = prot.announcer
         queued = []
         orig_queue = ann.queue_send
@@ -240,8 +241,6 @@ def run_case(case):
             insts.append(make_instance(i, False))
             ann.announce_service(insts[-1])
         announced = [True] * n
-        apply_p()
-        apply_i()
         started = [False]
         runs = {i: [] for i in range(n)}   # instance -> list of dict(t0, stop)
         pending_answers = []               # (due time, instance) of delayed find answers
